@@ -70,6 +70,16 @@ type task struct {
 	steps    uint64
 	started  bool
 	lockDept int
+	gw       int // package-level writes performed by this task
+}
+
+// PreemptW passes the token right after the K-th (0-based) package-level write of
+// task Task: the systematic counterpart of the step-indexed Preempt plan, aimed at
+// the only places where renders can interfere through process-wide state.
+type PreemptW struct {
+	Task int `json:"task"`
+	K    int `json:"k"`
+	To   int `json:"to"`
 }
 
 var (
@@ -82,7 +92,14 @@ var (
 	preempts []Preempt
 	pi       int
 	pendingSwitch bool
+	pendingTo     int
 	allDone  chan struct{}
+
+	preemptsW []PreemptW
+	// GWrites counts package-level writes per site in this run; GWTotal their number.
+	GWrites = map[int]int{}
+	GWTotal int
+	gwSolo  int
 
 	// Switches records (step, from, to) of every token hand-off performed.
 	Switches [][3]uint64
@@ -94,6 +111,33 @@ var (
 	lastSites [16]int32
 	lastPos   int
 )
+
+// W is called after every statement of the rewritten library that writes
+// package-level state (variable, field, element or pointee rooted in a package-level
+// variable), outside init().
+func W(site int) {
+	GWrites[site]++
+	GWTotal++
+	EventHash = hashMix(EventHash, 0x6777, uint64(site))
+	if len(tasks) == 0 {
+		gwSolo++
+		return
+	}
+	t := tasks[cur]
+	k := t.gw
+	t.gw++
+	for _, p := range preemptsW {
+		if p.Task == cur && p.K == k {
+			if t.lockDept > 0 {
+				pendingSwitch = true
+				pendingTo = p.To
+				return
+			}
+			switchTo(pick(p.To))
+			return
+		}
+	}
+}
 
 // Steps returns the global step counter (function entries so far in this run).
 func Steps() uint64 { return steps }
@@ -114,7 +158,7 @@ func recomputeNext() {
 	if pi < len(preempts) && preempts[pi].Step < nextEvent {
 		nextEvent = preempts[pi].Step
 	}
-	if pendingSwitch {
+	if pendingSwitch && (len(tasks) == 0 || tasks[cur].lockDept == 0) {
 		nextEvent = steps + 1
 	}
 }
@@ -128,29 +172,31 @@ func slowY(site int32) {
 	if len(tasks) == 0 {
 		// no scheduler: drop preemption points
 		pi = len(preempts)
-		recomputeNext()
-		return
-	}
-	if tasks[cur].lockDept > 0 {
-		pendingSwitch = true
+		pendingSwitch = false
 		recomputeNext()
 		return
 	}
 	to := -1
 	if pendingSwitch {
-		pendingSwitch = false
-		if pi > 0 {
-			to = preempts[pi-1].To
-		}
+		to = pendingTo
 	}
 	for pi < len(preempts) && preempts[pi].Step <= steps {
 		to = preempts[pi].To
 		pi++
 	}
-	recomputeNext()
-	if to >= 0 {
-		switchTo(pick(to))
+	if to < 0 {
+		recomputeNext()
+		return
 	}
+	if tasks[cur].lockDept > 0 {
+		// park with no lock held: remember the switch, perform it after Unlock
+		pendingSwitch, pendingTo = true, to
+		recomputeNext()
+		return
+	}
+	pendingSwitch = false
+	recomputeNext()
+	switchTo(pick(to))
 }
 
 // pick maps a requested task index to a runnable task other than the current one
@@ -182,7 +228,8 @@ func switchTo(j int) {
 // a time; the token moves only at the preemption points of the plan or when a
 // task ends. It returns when all tasks have ended. Panics inside a task must be
 // recovered by the task function itself.
-func RunTasks(fns []func(), plan []Preempt) {
+func RunTasks(fns []func(), plan []Preempt, planW []PreemptW) {
+	preemptsW = planW
 	tasks = make([]*task, len(fns))
 	for i := range fns {
 		tasks[i] = &task{wake: make(chan struct{})}
@@ -243,6 +290,9 @@ func Unlock(mu sync.Locker) {
 	mu.Unlock()
 	if len(tasks) > 0 {
 		tasks[cur].lockDept--
+		if pendingSwitch && tasks[cur].lockDept == 0 {
+			recomputeNext() // the next function entry performs the deferred switch
+		}
 	}
 }
 
@@ -258,6 +308,9 @@ func RUnlock(mu *sync.RWMutex) {
 	mu.RUnlock()
 	if len(tasks) > 0 {
 		tasks[cur].lockDept--
+		if pendingSwitch && tasks[cur].lockDept == 0 {
+			recomputeNext()
+		}
 	}
 }
 
@@ -376,6 +429,10 @@ func Reset(p OrderPlan, stepBudget uint64, nSites int) {
 	SiteStats = map[int]*SiteStat{}
 	EventHash = 0
 	LockOps = 0
+	GWrites = map[int]int{}
+	GWTotal = 0
+	gwSolo = 0
+	preemptsW = nil
 	Switches = nil
 	tasks = nil
 	preempts = nil
